@@ -420,6 +420,25 @@ def refineTracks (eps : Rat) (cols : List (List Int)) (h : Nat) (n : Int) (g : L
   | .error e => .error e
   | .ok ps => .ok (regroup (ig.map List.length) (ps.map fun q => ((q.2.1 : Int), q.1)))
 
+/-! ### `merge_close_peaks` (per frame) -/
+
+def absRat (r : Rat) : Rat := if r < 0 then -r else r
+
+/-- `merge_close_peaks`, one frame of (coordinate, amplitude): the indices (into the frame's arrays) that are masked out.
+    `sort_order = argsort(coordinates)`; `too_close = where(abs(diff(sorted coordinates)) < minimum_distance)`; of the two
+    neighbours the right one goes when it is strictly lower, else the left one; `mask[sort_order[too_close]] = False`. -/
+def mergeCloseRemoved (minDist : Rat) (fr : List (Rat × Rat)) : List Nat :=
+  let order := argsort (fun (a b : Rat) => decide (a ≤ b)) (fr.map (·.1))
+  let sorted := order.filterMap fun i => fr[i]?
+  let removeSorted := (sorted.zip sorted.tail).zipIdx.filterMap fun x =>
+    if absRat (x.1.2.1 - x.1.1.1) < minDist then some (if x.1.2.2 < x.1.1.2 then x.2 + 1 else x.2) else none
+  removeSorted.filterMap fun r => order[r]?
+
+/-- the frame after `merge_close_peaks`: `coordinates[mask]`, `peak_amplitudes[mask]` -/
+def mergeCloseFrame (minDist : Rat) (fr : List (Rat × Rat)) : List (Rat × Rat) :=
+  (fr.zipIdx.filter fun x => !(mergeCloseRemoved minDist fr).contains x.2).map (·.1)
+
+
 /-! ### protocol -/
 open Verif.Proto
 
@@ -478,6 +497,7 @@ def editOp? (s : String) : Option EditOp :=
   `c08.editprog lineTime <step|step|…> [[idx]] [[coords]]`   the group after the program (refused steps skipped)
   `c08.trackof [[coords per frame]] [f:j,…;…]`               the tracks of a linker result as (idx, coordinate)
   `c08.refine eps h n [[scan lines]] [[idx]] [[coords]]`     `refine_tracks_centroid(bias_correction=False)`: the group, or the error
+  `c08.mergeclose minDist [[coords per frame]] [[amps per frame]]`   the frames after `merge_close_peaks`
   `c08.moment eps h n [[scan lines]] [c:t,…]`                 pixel walk: `[refined,…] [m0,…]` or the error -/
 def handle : List String → Option String
   | ["c08.link", w, vel, sigma, diff, cutoff, coords, amps] => do
@@ -554,6 +574,14 @@ def handle : List String → Option String
       match refineTracks eps cols h n g with
       | .ok g' => some (showGroup g')
       | .error e => some e
+  | ["c08.mergeclose", md, coords, amps] => do
+    let md ← rat? md
+    let coords ← listListOf? rat? coords; let amps ← listListOf? rat? amps
+    if coords.length ≠ amps.length then none
+    else
+      let frames ← (coords.zip amps).mapM fun (c, a) => if c.length ≠ a.length then none else some (c.zip a)
+      let out := frames.map (mergeCloseFrame md)
+      some (showListList showRat (out.map fun f => f.map (·.1)) ++ " " ++ showListList showRat (out.map fun f => f.map (·.2)))
   | ["c08.moment", eps, h, n, cols, pts] => do
     let eps ← rat? eps; let h ← nat? h; let n ← int? n
     let cols ← listListOf? int? cols
